@@ -17,7 +17,9 @@ import ast
 
 from sa import asdl
 from sa import core
+from sa import rules_fold
 from sa import rules_order
+from sa import rules_stale
 from sa import tpl
 from sa import trav
 
@@ -68,6 +70,65 @@ GLOBAL_FIELD_EXCEPTIONS = {
 # documented pass-through exits of the Call handler: the guard must mention one
 ROUTE_CALL_TOKENS = ["'ag__.'", 'function_context_name', "'pdb.set_trace'",
                      "'ipdb.set_trace'", "'breakpoint'", "'print'"]
+
+
+def _canon(t, names):
+  """Canonical form of a guard over the callee's qualified name: independent of
+  local names (`names` maps a local to its role) and of tuple/set/== spelling."""
+  if isinstance(t, ast.BoolOp) and isinstance(t.op, ast.And):
+    return ('and', frozenset(_canon(v, names) for v in t.values))
+  if isinstance(t, ast.UnaryOp) and isinstance(t.op, ast.Not):
+    return ('not', _canon(t.operand, names))
+  if isinstance(t, ast.Compare) and len(t.ops) == 1 and isinstance(t.left, ast.Name):
+    role = names.get(t.left.id, t.left.id)
+    c = t.comparators[0]
+    if isinstance(t.ops[0], ast.Eq) and isinstance(c, ast.Constant):
+      return ('in', role, frozenset([c.value]))
+    if isinstance(t.ops[0], ast.In) and isinstance(c, (ast.Tuple, ast.List, ast.Set)) \
+        and all(isinstance(e, ast.Constant) for e in c.elts):
+      return ('in', role, frozenset(e.value for e in c.elts))
+  if isinstance(t, ast.Call) and isinstance(t.func, ast.Attribute) and \
+      t.func.attr == 'startswith' and isinstance(t.func.value, ast.Name) and len(t.args) == 1:
+    role = names.get(t.func.value.id, t.func.value.id)
+    a = t.args[0]
+    if isinstance(a, ast.Constant):
+      return ('prefix', role, a.value)
+    if isinstance(a, ast.BinOp) and isinstance(a.op, ast.Add) and isinstance(
+        a.left, ast.Name) and isinstance(a.right, ast.Constant):
+      return ('prefix', role, (names.get(a.left.id, a.left.id), a.right.value))
+  return ('text', core.norm(t))
+
+
+def _call_exceptions(h, guards):
+  """The documented cases in which a call stays native, as exact predicates over
+  the callee's qualified name (str of the QN annotation of node.func)."""
+  p = h.params()[0]
+  names = {}
+  for a in core.walk_no_nested(h.node):
+    if isinstance(a, ast.Assign) and len(a.targets) == 1 and isinstance(a.targets[0], ast.Name):
+      v = core.norm(a.value)
+      if v == "str(anno.getanno(%s.func, anno.Basic.QN, default=''))" % p:
+        names[a.targets[0].id] = 'CALLEE'
+      elif v == 'self.state[_Function].context_name':
+        names[a.targets[0].id] = 'FSCOPE'
+  allowed = {
+      ('prefix', 'CALLEE', 'ag__.'),
+      ('prefix', 'CALLEE', ('FSCOPE', '.')),
+      ('in', 'CALLEE', frozenset(['pdb.set_trace', 'ipdb.set_trace', 'breakpoint'])),
+      ('and', frozenset([
+          ('in', 'CALLEE', frozenset(['print'])),
+          ('not', ('text', 'self.ctx.user.options.uses(converter.Feature.BUILTIN_FUNCTIONS)'))])),
+  }
+  for pol, txt in guards:
+    if pol != 'T':
+      continue
+    try:
+      t = ast.parse(txt, mode='eval').body
+    except SyntaxError:
+      continue
+    if _canon(t, names) in allowed:
+      return True
+  return False
 
 
 def _origin_of_return(model, fi, ex):
@@ -177,7 +238,10 @@ def check(model, rep, tier):
                                  'origin': sorted(org)})
         continue
       gtxt = ' '.join(t for _, t in ex.guards)
-      ok = any(tok in gtxt for tok in allow_tokens)
+      if callable(allow_tokens):
+        ok = allow_tokens(h, ex.guards)
+      else:
+        ok = any(tok in gtxt for tok in allow_tokens)
       rep.check(ok, 'ROUTE', site,
                 'visit_%s returns the user\'s node unchanged on a path that is '
                 'not one of the documented exceptions (%s)' % (kind, allow_reason),
@@ -188,7 +252,7 @@ def check(model, rep, tier):
   route(CONV + 'continue_statements.py', 'ContinueCanonicalizationTransformer',
         'Continue')
   route(CONV + 'return_statements.py', 'ReturnStatementsTransformer', 'Return')
-  route(CONV + 'call_trees.py', 'CallTreeTransformer', 'Call', ROUTE_CALL_TOKENS,
+  route(CONV + 'call_trees.py', 'CallTreeTransformer', 'Call', _call_exceptions,
         'ag__ / function-scope calls, debugger entry, print without '
         'BUILTIN_FUNCTIONS')
   for k in ('If', 'While', 'For'):
@@ -306,6 +370,19 @@ def check(model, rep, tier):
 
   # ---------------------------------------------------------------- ORDER
   rules_order.check(model, rep, prop='C04')
+
+  # ---------------------------------------------------------------- STALE
+  rep.rule('STALE', 'no handler embeds a child it read off the node before the '
+           'visitor rewrote the node', floor=20)
+  _rels = sorted(m.rel for m in model.modules.values() if m.rel.startswith(CONV))
+  _sites = [x for x in tpl.find_sites(model) if x.fi.module.rel.startswith(CONV)]
+  rules_stale.check(model, rep, 'STALE', _rels, _sites)
+
+  # ---------------------------------------------------------------- FOLD
+  rep.rule('FOLD', 'n-ary boolean operations and comparison chains are folded '
+           'into nested operator calls over the converted operands, once each, '
+           'in source order, lazily', floor=6)
+  rules_fold.check(model, rep, 'FOLD')
 
   # ---------------------------------------------------------------- dependencies
   rep.depends('C10', ['CACHE-KEY'],
